@@ -30,7 +30,7 @@ BpExact(e) == /\ Chk(~cur.tree \/ (~e.raised /\ \A i \in 1..cur.n :
 
 \* min-sum: soft output equals the flooding min-sum rule (integers in units of 1/e.unit)
 MinSum(e) == LET safe == e.beta = 0 \/ OffsetSafe(Edges(cur.H), [x \in Edges(cur.H) |-> 0], e.y, e.iters, e.an, e.ad, e.beta) IN
-             /\ Chk(~safe \/ (~e.raised /\ \A j \in 1..cur.n : Abs(e.soft[j] - MinSumSoft(cur.H, e.y, e.iters, e.an, e.ad, e.beta)[j]) <= 2),
+             /\ Chk(~e.raised /\ \A j \in 1..cur.n : Abs(e.soft[j] - MinSumSoft(cur.H, e.y, e.iters, e.an, e.ad, e.beta)[j]) <= 2,
                     "min_sum_check_update_is_sign_product_times_minimum_magnitude")
              /\ (IF safe THEN TRUE ELSE PrintT(<<"SUBOFFSET", e.tid>>))
              /\ UNCHANGED cur
